@@ -8,7 +8,7 @@ from vlib.flow import enclosing_tries, handler_raises, handler_types, parent_map
 from vlib.grammar import GrammarModel, ladder
 from vlib.nodemodel import NodeModel
 from vlib.guards import always_exits
-from vlib.match import FI, X, atoms, closure, closure_fi, facts, facts_through, guarded_through, has_call, nodes
+from vlib.match import FI, X, atoms, closure, closure_fi, deref, facts, facts_through, guarded_through, has_call, nodes
 from vlib.norm import helper_closure
 from vlib.srcindex import SourceIndex, attr_chain, const_str, unparse, walk_no_nested
 
@@ -113,6 +113,43 @@ def run(rep: Report, tier: str) -> None:
 			pos = [const_str(a.comparators[0]) for a, p_ in atoms(fx, node) if p_ and isinstance(a, ast.Compare) and len(a.ops) == 1 and isinstance(a.ops[0], ast.Eq) and unparse(a.left) == po]
 			return (pos[0] if len(pos) == 1 else None), pos
 
+		# table-driven form: `funcs[OPS.index(op)](left, right)` with funcs a list parallel to the class constant OPS, or `{tok: func}[op](left, right)`;
+		# func is operator.<name> or `lambda a, b: a OP b`. Each (token, function) pair is one branch.
+		OPERATOR_MODULE = {'or_': 'BitOr', 'and_': 'BitAnd', 'xor': 'BitXor', 'lshift': 'LShift', 'rshift': 'RShift', 'add': 'Add', 'sub': 'Sub', 'mul': 'Mult', 'truediv': 'Div', 'mod': 'Mod', 'floordiv': 'FloorDiv', 'pow': 'Pow'}
+		table_rets = []
+		for ret in nodes(fx, ast.Return):
+			e = ret.value
+			if not (isinstance(e, ast.Call) and isinstance(e.func, ast.Subscript) and [unparse(a) for a in e.args] == [pl, pr_]):
+				continue
+			tbl, key_e = deref(fx, e.func.value), e.func.slice
+			pairs = None
+			if isinstance(tbl, ast.Dict) and unparse(key_e) == po:
+				pairs = [(const_str(k), v) for k, v in zip(tbl.keys, tbl.values)]
+			elif isinstance(tbl, (ast.List, ast.Tuple)) and isinstance(key_e, ast.Call) and isinstance(key_e.func, ast.Attribute) and key_e.func.attr == 'index' and [unparse(a) for a in key_e.args] == [po]:
+				keys_ = _const_list(c, unparse(key_e.func.value).split('.')[-1])
+				if keys_ is not None:
+					pairs = list(zip(keys_, tbl.elts)) if len(keys_) == len(tbl.elts) else [(None, None)]
+			if pairs is None:
+				continue
+			table_rets.append(ret)
+			if pairs == [(None, None)]:
+				r1.violate(f'{fname}:table-length', (EVAL, ret.lineno), f'{fname} indexes a function table of {len(tbl.elts)} entries with the position of the operator in a list of {len(keys_)}: the two are not parallel', unparse(ret)[:140])
+				continue
+			for tok, fn_ in pairs:
+				key = f'{fname}:{tok}'
+				branch_tokens[fname].append(tok)
+				want = _op_class(tok)
+				got = None
+				if isinstance(fn_, ast.Attribute) and unparse(fn_.value) in ('operator', 'op_') and fn_.attr in OPERATOR_MODULE:
+					got = OPERATOR_MODULE[fn_.attr]
+				elif isinstance(fn_, ast.Lambda) and len(fn_.args.args) == 2 and isinstance(fn_.body, ast.BinOp) and [unparse(fn_.body.left), unparse(fn_.body.right)] == [a.arg for a in fn_.args.args]:
+					got = type(fn_.body.op).__name__
+				r1.check(got == want, key, (EVAL, ret.lineno), f'the table entry for `{tok}` is `{unparse(fn_)[:50]}` ({got}); CPython evaluates `left {tok} right` as {want}(left, right): the function table and the operator list are out of step, so a different value is folded into the output', unparse(ret)[:140])
+				r1.check(tok in ops, key + ':in-list', (EVAL, ret.lineno), f'{fname} has a table entry for `{tok}`, which is not in its operator list {ops}')
+		if table_rets:
+			guarded = any(isinstance(n, ast.Assert) and isinstance(n.test, ast.Compare) and isinstance(n.test.ops[0], ast.In) and unparse(n.test.left) == po for n in nodes(fx, ast.Assert)) or any(isinstance(n, ast.Raise) for n in nodes(fx, ast.Raise))
+			r1.check(guarded, f'{fname}:else', f.where, f'{fname} looks the operator up in a table: an unknown operator must be refused with an assertion / raise (converted to OperationNotAllowed) before the lookup')
+			continue
 		for ret in nodes(fx, ast.Return):
 			e = ret.value
 			tok, pos = tok_of(ret)
